@@ -143,6 +143,10 @@ Outcome runParse(Binding &b, const std::vector<int> &codes, const Conf &cf, cons
 // analyse a tree (exposed for C13)
 void analyseTree(yaep_tree_node *root, bool cost_mode, bool one_parse, long limit, TreeInfo &ti);
 
+// in a process forked from the worker: sanitizer reports keep going to the worker's report descriptor (the runtime would
+// otherwise reopen its report file as "./.<pid>" after the fork)
+void reattachReports();
+
 void setAttrBase(long n); // make sure the attribute array holds n entries
 long attrIndex(void *p);
 
